@@ -426,6 +426,28 @@ def r15_5(ctx):
         if isinstance(c, ast.Call) and (call_name(c) or '').startswith('ml_nonzero'):
             ok = src(kwarg(c, 'lower_tri')) == 'lower_tri'
             ctx.decide('R15.5', PY + '.MLStructure.nonzero', src(c), ok, c, 'lower_tri forwarded')
+            # the triangle is selected entry by entry inside the kernels (J <= I on raveled indices); the block pattern handed
+            # to them is the structure's own, unfiltered: whether a level-0 block above the block diagonal contains entries
+            # with J <= I depends on the extents of the inner levels (more rows than columns: yes)
+            a0 = c.args[0] if c.args else None
+            if a0 is None:
+                ctx.undecided('R15.5', PY + '.MLStructure.nonzero', 'block pattern passed to ' + call_name(c), c, 'no positional argument')
+            elif src(a0) == 'self.bidx':
+                ctx.met('R15.5', PY + '.MLStructure.nonzero', 'block pattern passed to %s is self.bidx' % call_name(c), c, 'unfiltered')
+            elif isinstance(a0, ast.Name):
+                defs = [s for s in own_nodes(nz.node) if isinstance(s, ast.Assign) and any(isinstance(t, ast.Name) and t.id == a0.id for t in s.targets)]
+                filtered = [s for s in defs if any(isinstance(x, ast.Compare) for x in ast.walk(s.value))]
+                if filtered:
+                    ctx.violated('R15.5', PY + '.MLStructure.nonzero', 'block pattern passed to %s is self.bidx' % call_name(c), filtered[0],
+                                 '`%s` removes blocks by comparing BLOCK indices before the kernel selects entries by raveled indices: a block with '
+                                 'j0 > i0 still contains entries with J <= I when the inner levels have more rows than columns, so those entries '
+                                 '(diagonal ones included) are lost from the lower triangle' % src(filtered[0])[:100])
+                elif defs and all(src(s.value) == 'self.bidx' for s in defs):
+                    ctx.met('R15.5', PY + '.MLStructure.nonzero', 'block pattern passed to %s is self.bidx' % call_name(c), c, 'through a local')
+                else:
+                    ctx.undecided('R15.5', PY + '.MLStructure.nonzero', 'block pattern passed to ' + call_name(c), c, 'origin of %s not recognised' % a0.id)
+            else:
+                ctx.undecided('R15.5', PY + '.MLStructure.nonzero', 'block pattern passed to ' + call_name(c), c, src(a0)[:60])
 
 
 # ------------------------------------------------------------------ R15.6
